@@ -407,7 +407,7 @@ func badHex(r *lib.Rand) string {
 	case 0:
 		return "0x" + goodHex(r)
 	case 1:
-		return goodHex(r) + "a" // odd length
+		return []string{goodHex(r) + "a", "0", "abc", "ABCDE"}[r.Intn(4)] // odd length, hex digits only
 	case 2:
 		return "zz"
 	default:
